@@ -422,7 +422,14 @@ fn mutate(rng: &mut Rng, r: &[u8], with30: bool) -> Vec<u8> {
 }
 
 fn random_pair(rng: &mut Rng, max_len: usize, with30: bool) -> (u32, Vec<u8>, Vec<u8>, &'static str) {
-    let mm = if rng.chance(1, 4) { *rng.pick(&[5u32, 18, 20, 32]) } else { rng.range(5, 32) as u32 };
+    // mostly 5..32; sometimes 4 (key_len 1) and values with key_len >= 32 (key_mask = !0, u64 codes wrap)
+    let mm = if rng.chance(1, 4) {
+        *rng.pick(&[5u32, 18, 20, 32])
+    } else if rng.chance(1, 20) {
+        *rng.pick(&[4u32, 33, 35, 36, 40, 70])
+    } else {
+        rng.range(5, 32) as u32
+    };
     let key_len = (mm - HASHING_STEP + 1) as usize;
     // lengths: mostly small, sometimes up to max_len
     let cap = match rng.below(10) {
@@ -483,7 +490,7 @@ pub fn run(ctx: &mut Ctx) -> Report {
         "C09",
         "all (reference, target) pairs up to a length bound over {0,1}, {0,4}, {0..3}, {0,4,30} with min-match 5 (and 4); \
          random / mutation-derived pairs (SNPs, indels, N runs, block moves/duplications, shared suffix, equal, shorter than the key) \
-         with min-match 5..32 over codes 0..15, the same with code 30 in a separate stream; random lexically well-formed token \
+         with min-match 5..32 (and 4, 33..70) over codes 0..15, the same with code 30 in a separate stream; random lexically well-formed token \
          streams for the decoder. A pair is non-trivial if its encoding is non-empty; distinct by (min-match, reference, target)",
     );
     if let Some(rp) = ctx.replay.clone() {
